@@ -9,7 +9,7 @@
    documented rules on the interpreter; they are tests of the definition, not theorems about
    the compiler (see DESIGN.md for what is and is not proved). *)
 From Coq Require Import List ZArith Bool String.
-From Ugo Require Import Base.Res Value.PValue Value.Ops Comp.SymTab Comp.SlotProofs Sem.Sem Sem.SemOps ExprComp.ExprComp ExprComp.ExprCompProofs ExprComp.StmtComp ExprComp.StmtCompProofs.
+From Ugo Require Import Base.Res Value.PValue Value.Ops Comp.SymTab Comp.SlotProofs Sem.Sem Sem.SemOps ExprComp.ExprComp ExprComp.ExprCompProofs ExprComp.StmtComp ExprComp.StmtCompProofs ExprComp.RunProofs.
 Import ListNotations.
 Local Open Scope string_scope.
 
@@ -76,6 +76,17 @@ Theorem C02_function_body_correct : forall consts fuel s locals, wf s = true ->
   end.
 Proof. exact function_body_correct. Qed.
 Print Assumptions C02_function_body_correct.
+
+(* the same for the bounded runner xmrun, the function which the check executes on the model's code:
+   with enough fuel it returns the value, or throws the error, of the source-level execution *)
+Theorem C02_function_body_runs : forall consts fuel s locals, wf s = true ->
+  match sexec fuel consts locals s with
+  | Ok (QReturn v, _) => exists n, xmrun n consts (scompile 0 0 0 s) (ssize s) (XRunning 0 locals []) = XReturned v
+  | Err e => exists n, xmrun n consts (scompile 0 0 0 s) (ssize s) (XRunning 0 locals []) = XThrown e
+  | _ => True
+  end.
+Proof. exact function_body_runs. Qed.
+Print Assumptions C02_function_body_runs.
 
 (* non-vacuity: s := 0; for i := 0; i < 3; i = i + 1 { if i == 1 { continue }; s = s + i }; return s
    (locals: s = 0, i = 1; constants 0 3 1) is well-formed, returns 2 at source level, and the
